@@ -1,10 +1,80 @@
-/- C19 — property theorems (being filled). -/
-import SkNet.Model.Gnn
-import SkNet.Spec.Gnn
+/-
+C19 — GNN layers compute the documented message passing and consistent gradients.
+Theorems about the model `SkNet/Model/Gnn.lean` instantiated at `ℝ` (`SkNet/Lemmas/GnnReal.lean`).
+-/
+import SkNet.Lemmas.GnnForward
 
 namespace SkNet.C19
-open SkNet SkNet.Gnn
+open SkNet SkNet.Gnn SkNet.Gnn.Mat Finset
 
-theorem placeholder_len (n : Nat) : (tab n (fun v => v)).length = n := by simp
+/-- **forward_eq_def.** For every normalisation, self-embedding flag, activation, optional bias and all shapes for
+which the products are defined, `Convolution.forward` returns exactly the documented `σ(N(A) X W + b)`:
+entry `(i, k)` is the activation of row `i` of `Σ_j N(A)[i,j] · Σ_l X[j,l] W[l,k] + b[k]`, where `N(A)` is the
+adjacency normalised by the (pseudo-inverted) row weights on the left, on the right or by their square roots on
+both sides, plus the identity when `self_embeddings` is set.  (Adjacency and features enter through their
+denotation, whatever the container: CSR with duplicates, unsorted CSR, CSC, dense.) -/
+theorem forward_eq_def (cfg : LayerCfg) (n m d c : Nat) (a x w : Nat → Nat → ℝ) (b : Option (List ℝ))
+    (hb : ∀ bl, b = some bl → bl.length = c)
+    (hsq : cfg.norm = .right ∨ cfg.norm = .both → n = m) :
+    forward cfg (mk' n m a) (mk' m d x) (mk' d c w) b
+      = .ok (Spec.forward cfg (mk' n m a) (mk' m d x) (mk' d c w) b) := by
+  unfold forward
+  rw [normalize_mk' cfg.norm n m a hsq]
+  simp only [bind, Except.bind]
+  rw [selfLoops_mk', matmul_mk']
+  dsimp only
+  rw [matmul_mk']
+  dsimp only
+  have key : ∀ i, i < n → ∀ k, k < c →
+      Spec.preAct cfg.norm cfg.selfEmb (mk' n m a) (mk' m d x) (mk' d c w) b i k =
+        (∑ l ∈ range d, (∑ j ∈ range m, Spec.normEntry cfg.norm cfg.selfEmb (mk' n m a) i j * x j l) * w l k) +
+          biasAt b k :=
+    fun i _ k hk => preAct_mk' cfg.norm cfg.selfEmb (mk' n m a) m d c rfl x w b i k hk
+  cases b with
+  | none =>
+    simp only [pure, Except.pure]
+    rw [actOutput_mk']
+    congr 1
+    unfold Spec.forward
+    simp only [mk'_r, mk'_c]
+    apply mk'_congr
+    intro i hi k hk
+    apply actFn_congr _ _ _ _ _ k hk
+    intro k' hk'
+    rw [key i hi k' hk']
+    simp [biasAt]
+  | some bl =>
+    have hlen : bl.length = c := hb bl rfl
+    simp only [addBias, mk'_c, mk'_r, hlen, ne_eq, not_true_eq_false, ite_false, pure, Except.pure]
+    rw [actOutput_mk']
+    congr 1
+    unfold Spec.forward
+    simp only [mk'_r, mk'_c]
+    apply mk'_congr
+    intro i hi k hk
+    apply actFn_congr _ _ _ _ _ k hk
+    intro k' hk'
+    rw [key i hi k' hk', get_mk'_of_lt _ hi hk']
+    rfl
+
+/-- non-vacuity: a 2-node graph with a bias, `both` normalisation (square, so the hypotheses hold) -/
+example : (∀ bl, (some [1, 2] : Option (List ℝ)) = some bl → bl.length = 2) ∧
+    ((Norm.both = .right ∨ Norm.both = .both) → (2 : Nat) = 2) := by
+  refine ⟨?_, fun _ => rfl⟩
+  intro bl h
+  cases h
+  rfl
+
+/-- where the shapes do not fit (`right` / `both` on a rectangular matrix) the layer raises, as scipy does -/
+theorem forward_rectangular_error (cfg : LayerCfg) (n m : Nat) (hnm : n ≠ m) (a : Nat → Nat → ℝ) (X W : Mat ℝ)
+    (b : Option (List ℝ)) (h : cfg.norm = .right) :
+    forward cfg (mk' n m a) X W b = .error .valueError := by
+  unfold forward Gnn.normalize
+  rw [h]
+  simp only []
+  rw [matmul_dim_error]
+  · rfl
+  · simp only [mk'_c, rowSums, pinvDiag, mk'_r, tab_length]
+    exact fun h => hnm h.symm
 
 end SkNet.C19
